@@ -36,6 +36,10 @@ CHECKS["C10"] = ("exploration", "reference-ledger monitor at every height (depos
   "lock-step histories with small frozen periods cross every origin+frozen boundary block by block; at each height the deposit histories, flags and withdrawable sums must equal the ledger, no staking/binding coin may be auto-selected, and each withdrawal the wallet builds must carry exactly the sequence consensus derives and verify after signing",
   "trusts the ledger's transcription of calcSequenceLock/scriptval flag rule and mass-core's script engine; consensus constants lowered per case", "§5 C10")
 
+CHECKS["C12"] = ("exploration", "address-book model monitor (issue order vs independent derivation from the mnemonic, gap rule evaluated on the reference ledger, listing/used flags after every step) + an actual mnemonic restore into a second wallet instance",
+  "every NewAddress outcome is predicted (next index address or gap-limit error), every issued address must stay listed with the right used flag across payments, reorgs that remove first payments and restarts, and a restore with index hints must rediscover every funded index",
+  "trusts harness BIP-39/BIP-32 references for the expected address at index i; restore completeness demanded only while the final chain satisfies the gap invariant", "§5 C12")
+
 NOT_APPLICABLE = {}
 
 def main():
